@@ -232,3 +232,211 @@ Proof.
     + intros k. rewrite Eseq, !in_app_iff. cbn [In].
       rewrite !remove_node_In. destruct (N.eq_dec k (it_key x)); [subst|]; intuition congruence.
 Qed.
+
+(** the abstract effect of a sequence of placements [(index, item)] *)
+Definition place_fold (tasks : list (nat * item)) (cd : list (option item) * list node)
+  : list (option item) * list node :=
+  fold_left (fun cd tx => (set_nth (fst tx) (Some (snd tx)) (fst cd),
+                           mount_at (fst cd) (fst tx) (snd tx) mk (snd cd))) tasks cd.
+
+Lemma place_all : forall nodes_of U tasks seq c dom,
+  inv nodes_of U seq c dom ->
+  (forall t x, In (t, x) tasks ->
+     In (it_key x) U /\ nodes_of (it_key x) = it_nodes x /\ it_nodes x <> [] /\
+     nth_error to t = Some (it_key x) /\ t < length c /\ ~ In (it_key x) (map it_key (somes c))) ->
+  NoDup (map (fun tx => it_key (snd tx)) tasks) ->
+  exists seq', inv nodes_of U seq' (fst (place_fold tasks (c, dom))) (snd (place_fold tasks (c, dom))) /\
+    (forall k, In k seq' <-> In k seq \/ In k (map (fun tx => it_key (snd tx)) tasks)) /\
+    length (fst (place_fold tasks (c, dom))) = length c /\
+    (forall it, In it (somes (fst (place_fold tasks (c, dom)))) <->
+                In it (somes c) \/ In it (map snd tasks)).
+Proof.
+  intros nodes_of U tasks. induction tasks as [|[t x] tasks IH]; intros seq c dom Hinv Ht Hnd.
+  - exists seq. simpl. split; [exact Hinv|]. split; [intros; tauto|]. split; [reflexivity|]. intros; tauto.
+  - cbn [map] in Hnd. inversion Hnd as [|? ? Hx Hnd']; subst.
+    destruct (Ht t x (or_introl eq_refl)) as [HU [Hn [Hne [Hto [Hlt Hnp]]]]].
+    assert (nth_error c t = Some None) as Hnone.
+    { destruct (nth_error c t) as [[it'|]|] eqn:E; auto.
+      - exfalso. apply Hnp. pose proof (i_aligned _ _ _ _ _ Hinv _ _ E) as Ha.
+        rewrite Hto in Ha. inversion Ha as [Hk]. rewrite Hk. apply in_map.
+        apply In_somes_nth. eauto.
+      - apply nth_error_None in E. lia. }
+    destruct (place_step _ _ _ _ _ _ _ Hinv Hnone HU Hn Hne Hto Hnp) as [seq1 [Hinv1 Hseq1]].
+    assert (forall it, In it (somes (set_nth t (Some x) c)) <-> In it (somes c) \/ it = x) as Hs1.
+    { intros it. rewrite (somes_set_nth t x c Hlt). rewrite (somes_split_None _ _ Hnone).
+      rewrite !in_app_iff. simpl. intuition congruence. }
+    destruct (IH seq1 (set_nth t (Some x) c) (mount_at c t x mk dom) Hinv1) as [seq' [Hinv' [Hseq' [Hlen' Hs']]]]; auto.
+    { intros t' x' Hin. destruct (Ht t' x' (or_intror Hin)) as [HU' [Hn' [Hne' [Hto' [Hlt' Hnp']]]]].
+      repeat split; auto.
+      - rewrite set_nth_length. auto.
+      - intro Hc. apply in_map_iff in Hc. destruct Hc as [it [Ek Hit]]. apply Hs1 in Hit.
+        destruct Hit as [Hit|Hit].
+        + apply Hnp'. rewrite <- Ek. apply in_map. auto.
+        + subst it. apply Hx. simpl. rewrite Ek.
+          apply (in_map (fun tx => it_key (snd tx)) tasks (t', x')). auto. }
+    exists seq'. cbn [place_fold fold_left fst snd]. fold (place_fold tasks (set_nth t (Some x) c, mount_at c t x mk dom)).
+    split; [exact Hinv'|]. split; [|split].
+    + intros k. rewrite Hseq', Hseq1. cbn [map fst snd In]. intuition congruence.
+    + rewrite Hlen', set_nth_length. reflexivity.
+    + intros it. rewrite Hs', Hs1. cbn [map snd In]. intuition congruence.
+Qed.
+
+(* --------------------------------------- the concrete folds of apply_diff as placement folds *)
+
+Definition dom_tasks (xof : mv -> item) (ms : list mv) : list (nat * item) :=
+  flat_map (fun mv => if m_dom mv then [(m_to mv, xof mv)] else []) ms.
+Definition dom_log (xof : mv -> item) (ms : list mv) : list event :=
+  flat_map (fun mv => if m_dom mv
+                      then [EvMount (it_key (xof mv)) (it_gen (xof mv));
+                            EvSetIndex (it_key (xof mv)) (it_gen (xof mv)) (m_to mv)]
+                      else []) ms.
+
+Lemma fold_step_dom : forall mc xof ms i0 w,
+  w_panic w = false ->
+  (forall j mv, nth_error ms j = Some mv -> m_dom mv = true ->
+     nth_error mc (i0 + j) = Some (Some (xof mv)) /\ m_to mv < length (w_children w)) ->
+  let w' := fold_left (step_dom mk mc) (enumerate_from i0 ms) w in
+  let cd := place_fold (dom_tasks xof ms) (w_children w, w_dom w) in
+  w_children w' = fst cd /\ w_dom w' = snd cd /\ w_log w' = w_log w ++ dom_log xof ms /\
+  w_next w' = w_next w /\ w_gen w' = w_gen w /\ w_panic w' = false.
+Proof.
+  intros mc xof ms. induction ms as [|mv ms IH]; intros i0 w Hp H.
+  - simpl. rewrite app_nil_r. repeat split; auto.
+  - cbn [enumerate_from fold_left]. cbv zeta.
+    destruct (m_dom mv) eqn:Ed.
+    + destruct (H 0 mv eq_refl Ed) as [Hmc Hlt]. rewrite Nat.add_0_r in Hmc.
+      apply Nat.ltb_lt in Hlt.
+      assert (step_dom mk mc w (i0, mv) =
+              {| w_children := set_nth (m_to mv) (Some (xof mv)) (w_children w);
+                 w_dom := mount_at (w_children w) (m_to mv) (xof mv) mk (w_dom w);
+                 w_log := w_log w ++ [EvMount (it_key (xof mv)) (it_gen (xof mv));
+                                      EvSetIndex (it_key (xof mv)) (it_gen (xof mv)) (m_to mv)];
+                 w_next := w_next w; w_gen := w_gen w; w_panic := false |}) as Es.
+      { unfold step_dom. rewrite Hp, Ed, Hmc, Hlt. reflexivity. }
+      rewrite Es. clear Es.
+      match goal with |- context [fold_left _ _ ?w1] => set (w1' := w1) end.
+      destruct (IH (S i0) w1') as [Hc [Hd [Hl [Hn [Hg Hp']]]]]; [reflexivity| |].
+      { intros j mv' Hj Hd'. destruct (H (S j) mv' Hj Hd') as [H1 H2].
+        rewrite Nat.add_succ_r in H1. split; auto. unfold w1'. cbn [w_children].
+        rewrite set_nth_length. apply Nat.ltb_lt in Hlt. auto. }
+      unfold dom_tasks, dom_log. cbn [flat_map]. rewrite Ed. cbn [app place_fold fold_left fst snd].
+      fold (place_fold (dom_tasks xof ms)
+              (set_nth (m_to mv) (Some (xof mv)) (w_children w),
+               mount_at (w_children w) (m_to mv) (xof mv) mk (w_dom w))).
+      fold (dom_log xof ms).
+      rewrite Hc, Hd, Hl, Hn, Hg, Hp'. unfold w1'. cbn [w_children w_dom w_log w_next w_gen].
+      rewrite <- app_assoc. repeat split; auto.
+    + assert (step_dom mk mc w (i0, mv) = w) as Es.
+      { unfold step_dom. rewrite Hp, Ed. reflexivity. }
+      rewrite Es. clear Es.
+      destruct (IH (S i0) w) as [Hc [Hd [Hl [Hn [Hg Hp']]]]]; auto.
+      { intros j mv' Hj Hd'. destruct (H (S j) mv' Hj Hd') as [H1 H2].
+        rewrite Nat.add_succ_r in H1. auto. }
+      unfold dom_tasks, dom_log. cbn [flat_map]. rewrite Ed. cbn [app]. repeat split; auto.
+Qed.
+
+Definition nondom_children (xof : mv -> item) (ms : list mv) (c : list (option item))
+  : list (option item) :=
+  fold_left (fun c mv => if m_dom mv then c else set_nth (m_to mv) (Some (xof mv)) c) ms c.
+Definition nondom_log (xof : mv -> item) (ms : list mv) : list event :=
+  flat_map (fun mv => if m_dom mv then []
+                      else [EvSetIndex (it_key (xof mv)) (it_gen (xof mv)) (m_to mv)]) ms.
+
+Lemma nondom_children_length : forall xof ms c, length (nondom_children xof ms c) = length c.
+Proof.
+  intros xof ms. unfold nondom_children. induction ms as [|mv ms IH]; intros c; cbn [fold_left].
+  - reflexivity.
+  - rewrite IH. destruct (m_dom mv); [reflexivity | apply set_nth_length].
+Qed.
+
+Lemma fold_step_nondom : forall mc xof ms i0 w,
+  w_panic w = false ->
+  (forall j mv, nth_error ms j = Some mv -> m_dom mv = false ->
+     nth_error mc (i0 + j) = Some (Some (xof mv)) /\ m_to mv < length (w_children w)) ->
+  let w' := fold_left (step_nondom mc) (enumerate_from i0 ms) w in
+  w_children w' = nondom_children xof ms (w_children w) /\ w_dom w' = w_dom w /\
+  w_log w' = w_log w ++ nondom_log xof ms /\
+  w_next w' = w_next w /\ w_gen w' = w_gen w /\ w_panic w' = false.
+Proof.
+  intros mc xof ms. induction ms as [|mv ms IH]; intros i0 w Hp H.
+  - simpl. rewrite app_nil_r. repeat split; auto.
+  - cbn [enumerate_from fold_left]. cbv zeta.
+    destruct (m_dom mv) eqn:Ed.
+    + assert (step_nondom mc w (i0, mv) = w) as Es.
+      { unfold step_nondom. rewrite Hp, Ed. reflexivity. }
+      rewrite Es. clear Es.
+      destruct (IH (S i0) w) as [Hc [Hd [Hl [Hn [Hg Hp']]]]]; auto.
+      { intros j mv' Hj Hd'. destruct (H (S j) mv' Hj Hd') as [H1 H2].
+        rewrite Nat.add_succ_r in H1. auto. }
+      unfold nondom_children, nondom_log. cbn [flat_map fold_left]. rewrite Ed. cbn [app].
+      repeat split; auto.
+    + destruct (H 0 mv eq_refl Ed) as [Hmc Hlt]. rewrite Nat.add_0_r in Hmc.
+      apply Nat.ltb_lt in Hlt.
+      assert (step_nondom mc w (i0, mv) =
+              {| w_children := set_nth (m_to mv) (Some (xof mv)) (w_children w);
+                 w_dom := w_dom w;
+                 w_log := w_log w ++ [EvSetIndex (it_key (xof mv)) (it_gen (xof mv)) (m_to mv)];
+                 w_next := w_next w; w_gen := w_gen w; w_panic := false |}) as Es.
+      { unfold step_nondom. rewrite Hp, Ed, Hmc, Hlt. reflexivity. }
+      rewrite Es. clear Es.
+      match goal with |- context [fold_left _ _ ?w1] => set (w1' := w1) end.
+      destruct (IH (S i0) w1') as [Hc [Hd [Hl [Hn [Hg Hp']]]]]; [reflexivity| |].
+      { intros j mv' Hj Hd'. destruct (H (S j) mv' Hj Hd') as [H1 H2].
+        rewrite Nat.add_succ_r in H1. split; auto. unfold w1'. cbn [w_children].
+        rewrite set_nth_length. auto. }
+      unfold nondom_children, nondom_log. cbn [flat_map fold_left]. rewrite Ed.
+      fold (nondom_children xof ms (set_nth (m_to mv) (Some (xof mv)) (w_children w))).
+      fold (nondom_log xof ms).
+      rewrite Hc, Hd, Hl, Hn, Hg, Hp'. unfold w1'. cbn [w_children w_dom w_log w_next w_gen].
+      rewrite <- app_assoc. repeat split; auto.
+Qed.
+
+Fixpoint add_tasks (m : nat) (items : list N) (next : N) (gen : nat) (adds : list addop)
+  : list (nat * item) :=
+  match adds with
+  | [] => []
+  | a :: r =>
+      (a_at a, {| it_key := nth (a_at a) items 0%N; it_gen := gen;
+                  it_nodes := map (fun j => (next + N.of_nat j)%N) (seq 0 m) |})
+      :: add_tasks m items (next + N.of_nat m)%N (S gen) r
+  end.
+Definition add_log (tasks : list (nat * item)) : list event :=
+  flat_map (fun tx => [EvBuild (it_key (snd tx)) (it_gen (snd tx)) (fst tx);
+                       EvMount (it_key (snd tx)) (it_gen (snd tx))]) tasks.
+
+Lemma fold_step_add : forall m items adds w,
+  w_panic w = false ->
+  Forall (fun a => a_mode a = Normal /\ a_at a < length items /\ a_at a < length (w_children w)) adds ->
+  let w' := fold_left (step_add m mk items) adds w in
+  let tasks := add_tasks m items (w_next w) (w_gen w) adds in
+  let cd := place_fold tasks (w_children w, w_dom w) in
+  w_children w' = fst cd /\ w_dom w' = snd cd /\ w_log w' = w_log w ++ add_log tasks /\
+  w_next w' = (w_next w + N.of_nat (m * length adds))%N /\ w_gen w' = w_gen w + length adds /\
+  w_panic w' = false.
+Proof.
+  intros m items adds. induction adds as [|a adds IH]; intros w Hp H.
+  - simpl. rewrite app_nil_r, Nat.mul_0_r, N.add_0_r, Nat.add_0_r. repeat split; auto.
+  - inversion H as [|? ? [Hm [Hli Hlc]] H']; subst.
+    cbn [fold_left]. cbv zeta.
+    destruct (nth_error items (a_at a)) as [k|] eqn:Ek.
+    2:{ apply nth_error_None in Ek. lia. }
+    assert (k = nth (a_at a) items 0%N) as Ek' by (symmetry; apply nth_error_nth; auto).
+    pose proof Hlc as Hlc'. apply Nat.ltb_lt in Hlc'.
+    assert (step_add m mk items w a =
+            {| w_children := set_nth (a_at a) (Some (build_item m k w)) (w_children w);
+               w_dom := mount_at (w_children w) (a_at a) (build_item m k w) mk (w_dom w);
+               w_log := w_log w ++ [EvBuild k (w_gen w) (a_at a); EvMount k (w_gen w)];
+               w_next := (w_next w + N.of_nat m)%N; w_gen := S (w_gen w); w_panic := false |}) as Es.
+    { unfold step_add. rewrite Hp, Ek, Hlc', Hm. reflexivity. }
+    rewrite Es. clear Es.
+    match goal with |- context [fold_left _ _ ?w1] => set (w1' := w1) end.
+    destruct (IH w1') as [Hc [Hd [Hl [Hn [Hg Hp']]]]]; [reflexivity| |].
+    { eapply Forall_impl; [|exact H']. intros a' [A1 [A2 A3]]. repeat split; auto.
+      unfold w1'. cbn [w_children]. rewrite set_nth_length. auto. }
+    rewrite Hc, Hd, Hl, Hn, Hg, Hp'. unfold w1'. cbn [w_children w_dom w_log w_next w_gen].
+    cbn [add_tasks]. unfold add_log. cbn [flat_map place_fold fold_left fst snd it_key it_gen].
+    unfold build_item. rewrite <- Ek'.
+    fold (add_log (add_tasks m items (w_next w + N.of_nat m) (S (w_gen w)) adds)).
+    cbn [length]. rewrite <- app_assoc.
+    repeat split; auto; try lia.
+Qed.
